@@ -28,7 +28,10 @@ func macRoman(s string) []byte {
 }
 
 var nameRunes = []rune("abcdefghijklmnopqrstuvwxyzABCDEFGHIJKLMNOPQRSTUVWXYZ0123456789 _-+()[]&'!,;=@#$%^~" + "éüñçøåÄÖßπΩ™©•…∞")
-var nameExts = []string{"", ".txt", ".sit", ".pdf", ".gif", ".zip", ".tgz", ".hqx", ".jpg", ".jpeg", ".img", ".sea", ".mov", ".TXT", ".tar.gz", ".unknown", "."}
+
+// (the extensions of the server's type table, and the common ones a maintainer may add to it next)
+var nameExts = []string{"", ".txt", ".sit", ".pdf", ".gif", ".zip", ".tgz", ".hqx", ".jpg", ".jpeg", ".img", ".sea", ".mov", ".TXT", ".tar.gz", ".unknown", ".",
+	".bmp", ".BMP", ".png", ".tif", ".tiff", ".mp3", ".wav", ".aiff", ".avi", ".mpg", ".html", ".htm", ".doc", ".rtf", ".exe", ".bin", ".dmg", ".rar", ".gz", ".tar", ".psd", ".pict", ".c", ".h", ".sitx", ".cpt", ".dd", ".smi"}
 
 // genFileName draws a visible file name representable in Mac-Roman, <= 255 UTF-8 bytes.
 func genFileName(rt *rapid.T, label string) string {
